@@ -255,6 +255,20 @@ def step (line : String) : String :=
     | some (res, recs) =>
       "ok " ++ ",".intercalate (res.map showD) ++ " " ++
         ";".intercalate (recs.map fun r => ",".intercalate (r.map showD))
+  | ["capr", a, tol, maxIter, repeats, seed] =>
+    -- the randomised call entirely inside the model: seed -> MT19937 -> start vectors -> double-precision iteration
+    let parseD (s : String) : Dbl := match s.splitOn "/" with
+      | [n, d] => ⟨parseIntD n, parseNatD d⟩
+      | _ => ⟨parseIntD s, 1⟩
+    let showD (x : Dbl) : String :=
+      let g : Int := Int.gcd x.num x.den
+      if g > 0 then toString (x.num / g) ++ "/" ++ toString ((x.den : Int) / g) else "0/1"
+    (match approximateCapacitySeeded (parseAcc a) (parseD tol) (parseNatD maxIter) (parseNatD repeats) (parseNatD seed) with
+     | .error e => "err " ++ errName e
+     | .ok none => "err OUT_OF_FUEL"
+     | .ok (some (res, recs)) =>
+       "ok " ++ ",".intercalate (res.map showD) ++ " " ++
+         ";".intercalate (recs.map fun r => ",".intercalate (r.map showD)))
   | ["shuf", k, seed] =>
     showR (fun t => String.join (t.map fun r => String.join (r.map toString)))
       (createRandomShufflesSeeded (parseNatD k) (parseNatD seed))
